@@ -358,6 +358,13 @@ def run(chk):
     if chk.require("(c) reader layout", "c|bodies", nl is not None and ps is not None, CR, "ListProvider::node_label/public_suffix not found"):
         chk.touched(nl)
         chk.touched(ps)
+        # read through their inlined views: a private accessor that unpacks a table entry is part of the lookup
+        from . import inline as _inl10
+        # (a helper that loops — the binary search over sibling labels — stays a call: the walk step refers to it as one)
+        keep_loops = (lambda cal: bool(flow.loops(cal)),)
+        nl, ps = _inl10.inlined(p, nl, keep=keep_loops), _inl10.inlined(p, ps, keep=keep_loops)
+        for path_ in list(nl.inlined_callees) + list(ps.inlined_callees):
+            chk.touched(p.bodies.get(path_))
         got = {}
         for b in (nl, ps):
             for src, w, line in reader_fields(p, b):
@@ -413,23 +420,49 @@ def walk_step_rules(chk, p, ps):
     head = list(L)[0]
     blocks = L[head]
     # state locals, identified by what they hold (never by name)
-    cand = [i for i in range(ps.arg_count + 1, len(ps.locals))]
+    # (the function's own locals: those of helpers inlined into the view are numbered after them)
+    n_own = len(p.bodies[ps.path].locals) if ps.path in p.bodies else len(ps.locals)
+    cand = [i for i in range(ps.arg_count + 1, min(n_own, len(ps.locals)))]
     rows0 = flow.loop_steps(p, ps, head, blocks, cand)
     if not chk.require(R, "d|rows", rows0 and all(r["conds"] is not None for r in rows0), where(ps), "loop step table could not be enumerated"):
         return
+    # a helper inlined several times tests the same value several times: rows deciding one test both ways are infeasible
+    from . import normal as _normal10
+    rows0 = [r for r in rows0 if not _normal10.contradictory([(t, l) for t, l, sb in r["conds"]])]
     cont = [r for r in rows0 if r["kind"] == "continue"]
     exits = [r for r in rows0 if r["kind"] == "exit"]
     cn = lambda nm: (lambda x: isinstance(x, tuple) and len(x) == 2 and x[0] == "const" and isinstance(x[1], str) and x[1].endswith("::" + nm))
 
+    # loop-carried locals: those whose value at the loop head is read by some row (temporaries holding a copy are not)
+    carried = set()
+    def _note(x):
+        if isinstance(x, tuple) and len(x) == 2 and x[0] == "in" and isinstance(x[1], int):
+            carried.add(x[1])
+        return False
+    for r in rows0:
+        for t, l, sb in r["conds"]:
+            flow.term_contains(t, _note)
+        for l2, v in r["state"].items():
+            if v != ("in", l2):
+                flow.term_contains(v, _note)
+
     def find_local(pred):
         out = [l for l in cand if cont and all(pred(r["state"][l], l) for r in cont)]
+        if len(out) > 1:
+            out = [l for l in out if l in carried] or out
         return out[0] if len(out) == 1 else None
 
     tested = {t[1] for r in rows0 for t, l, sb in r["conds"] if isinstance(t, tuple) and len(t) == 2 and t[0] == "in"}
     wl = find_local(lambda t, l: ps.local_ty(l) == "bool" and l in tested and _has(t, cn("CHILDREN_BITS_WILDCARD")))
+    simp = flow.simplify_term
     s_l = find_local(lambda t, l: ps.local_ty(l) == "&str" and _isc(t, "Index::index") and t[2][0] == ("in", l))
-    lo = find_local(lambda t, l: ps.local_ty(l) == "u32" and t[0] == "binop" and t[1] == "BitAnd" and _has(t, cn("CHILDREN_BITS_LO")) and not _has(t, cn("CHILDREN_BITS_HI")))
-    hi = find_local(lambda t, l: ps.local_ty(l) == "u32" and t[0] == "binop" and t[1] == "BitAnd" and _has(t, cn("CHILDREN_BITS_HI")) and not _has(t, cn("CHILDREN_BITS_NODE_TYPE")))
+    # the part still to be matched, kept as a shrinking slice `s` or as an end index into the whole domain (`domain[..end]`)
+    is_prefix_of_domain = lambda x, l: _isc(x, "Index::index") and x[2][0] in (("param", 2), ("in", 2)) and isinstance(x[2][1], tuple) and len(x[2][1]) == 4 and x[2][1][0] == "agg" and str(x[2][1][1]).endswith("RangeTo") and dict(x[2][1][3]).get("end") == ("in", l)
+    end_l = None
+    if s_l is None:
+        end_l = find_local(lambda t, l: ps.local_ty(l) == "usize" and isinstance(simp(t), tuple) and simp(t)[:1] == ("payload",) and _isc(simp(t)[1], "str::rfind") and is_prefix_of_domain(simp(t)[1][2][0], l))
+    lo = find_local(lambda t, l: ps.local_ty(l) == "u32" and simp(t)[0] == "binop" and simp(t)[1] == "BitAnd" and _has(simp(t), cn("CHILDREN_BITS_LO")) and not _has(simp(t), cn("CHILDREN_BITS_HI")))
+    hi = find_local(lambda t, l: ps.local_ty(l) == "u32" and simp(t)[0] == "binop" and simp(t)[1] == "BitAnd" and _has(simp(t), cn("CHILDREN_BITS_HI")) and not _has(simp(t), cn("CHILDREN_BITS_NODE_TYPE")))
     from .common import place_reads, term_reads
     after = set()
     post_blocks = ps.reachable([r["end"] for r in rows0 if r["kind"] == "exit"][:1], follow_yield_drop=False) - blocks
@@ -441,10 +474,14 @@ def walk_step_rules(chk, p, ps):
     # the suffix position: kept as a range `start..` or as the start index itself
     sfx = [l for l in cand if (ps.local_ty(l).startswith("core::ops::range::RangeFrom<usize>") or ps.local_ty(l) == "usize") and l in after and any(r["state"][l] != ("in", l) for r in rows0)]
     sfx = sfx[0] if len(sfx) == 1 else None
-    if not chk.require(R, "d|state", None not in (wl, s_l, lo, hi, sfx), where(ps), "state variables not identified (wildcard=%s s=%s lo=%s hi=%s suffix=%s)" % (wl, s_l, lo, hi, sfx)):
+    walk_l = s_l if s_l is not None else end_l
+    if not chk.require(R, "d|state", None not in (wl, walk_l, lo, hi, sfx), where(ps), "state variables not identified (wildcard=%s s=%s end=%s lo=%s hi=%s suffix=%s)" % (wl, s_l, end_l, lo, hi, sfx)):
         return
     IN = lambda l: ("in", l)
-    dot = lambda t: _isc(t, "str::rfind") and t[2][0] == IN(s_l) and t[2][1] == ("const", 46)
+    # the walked string: the slice variable itself, or domain[..end]
+    is_walk = (lambda x: x == IN(s_l)) if s_l is not None else (lambda x: is_prefix_of_domain(x, end_l))
+    is_walk_len = (lambda x: _isc(x, "str::len") and is_walk(x[2][0])) if s_l is not None else (lambda x: x == IN(end_l) or (_isc(x, "str::len") and is_walk(x[2][0])))
+    dot = lambda t: _isc(t, "str::rfind") and is_walk(t[2][0]) and t[2][1] == ("const", 46)
     from . import normal, summary
     Nn = normal.Normalizer(p, summary.Summaries(p))
 
@@ -486,7 +523,12 @@ def walk_step_rules(chk, p, ps):
         return False
 
     at_label = lambda t, conds=(): label_start(t, dot, conds)
-    one_further = lambda t: plus_one(start_of(Nn.inline(t)), ("call", "core::str::<impl str>::len", (IN(s_l),), 0)) or (lambda v: isinstance(v, tuple) and ((len(v) == 3 and v[0] == "field" and v[2] == "0" and isinstance(v[1], tuple) and v[1][:1] == ("binop",) and v[1][1].startswith("Add") and ("const", 1) in v[1][2:4] and any(_isc(x, "str::len") and x[2][0] == IN(s_l) for x in v[1][2:4])) or (len(v) == 4 and v[0] == "binop" and v[1].startswith("Add") and ("const", 1) in v[2:4] and any(_isc(x, "str::len") and x[2][0] == IN(s_l) for x in v[2:4]))))(start_of(Nn.inline(t)))
+    def one_further(t):
+        """1 + the length of the walked string"""
+        v = start_of(Nn.inline(t))
+        if isinstance(v, tuple) and len(v) == 3 and v[0] == "field" and v[2] == "0":
+            v = v[1]
+        return isinstance(v, tuple) and len(v) == 4 and v[0] == "binop" and v[1].startswith("Add") and ("const", 1) in v[2:4] and any(is_walk_len(x) for x in v[2:4])
     nt_term = lambda t: isinstance(t, tuple) and t and t[0] == "binop" and t[1] == "Eq" and _has(t, cn("CHILDREN_BITS_NODE_TYPE"))
     is_normal = lambda t: nt_term(t) and _has(t, cn("NODE_TYPE_NORMAL"))
     is_exc = lambda t: nt_term(t) and _has(t, cn("NODE_TYPE_EXCEPTION"))
@@ -501,7 +543,15 @@ def walk_step_rules(chk, p, ps):
             elif flow.tests_presence_of(t, lambda x: _isc(x, "ListProvider::find")):
                 d["found"] = flow.asserts_ok(t, l, lambda x: _isc(x, "ListProvider::find"))
                 f = [x for x in flow._subjects(flow.presence_test(t, l)[0], True) if _isc(x, "ListProvider::find")][0]
-                d["find_args_ok"] = len(f[2]) == 4 and _isc(f[2][1], "Index::index") and f[2][1][2][0] == IN(s_l) and at_label(f[2][1][2][1], r["conds"]) and f[2][2] == IN(lo) and f[2][3] == IN(hi)
+                la = f[2][1] if len(f[2]) == 4 else None
+                if s_l is not None:
+                    label_ok = _isc(la, "Index::index") and la[2][0] == IN(s_l) and at_label(la[2][1], r["conds"])
+                else:
+                    # domain[label..end]: from the start of the last label of domain[..end] to end
+                    rg = la[2][1] if _isc(la, "Index::index") and la[2][0] in (("param", 2), ("in", 2)) else None
+                    dr = dict(rg[3]) if isinstance(rg, tuple) and len(rg) == 4 and rg[0] == "agg" and str(rg[1]).endswith("::Range") else {}
+                    label_ok = dr.get("end") == IN(end_l) and dr.get("start") is not None and at_label(dr["start"], r["conds"])
+                d["find_args_ok"] = len(f[2]) == 4 and label_ok and f[2][2] == IN(lo) and f[2][3] == IN(hi)
             elif is_normal(t):
                 d["normal"] = flow.lab_true(l)
             elif is_exc(t):
@@ -533,8 +583,11 @@ def walk_step_rules(chk, p, ps):
         if r["kind"] == "continue":
             ok = c["empty"] is False and c["found"] and c.get("find_args_ok") and c["dot"] and not (c["exc"] and not c["normal"])
             st = r["state"]
-            ok = ok and _isc(st[s_l], "Index::index") and st[s_l][2][0] == IN(s_l) and _has(st[s_l][2][1], lambda x: flow.is_payload_of(x, dot))
-            ok = ok and _has(st[lo], cn("CHILDREN")) and _has(st[hi], cn("CHILDREN")) and _has(st[wl], cn("CHILDREN")) and _has(st[lo], lambda x: _isc(x, "ListProvider::find") or x == ("field", ("field", ("call",), ""), "")) is not None
+            if s_l is not None:
+                ok = ok and _isc(st[s_l], "Index::index") and st[s_l][2][0] == IN(s_l) and _has(st[s_l][2][1], lambda x: flow.is_payload_of(x, dot))
+            else:
+                ok = ok and flow.is_payload_of(simp(st[end_l]), dot)
+            ok = ok and _has(simp(st[lo]), cn("CHILDREN")) and _has(simp(st[hi]), cn("CHILDREN")) and _has(simp(st[wl]), cn("CHILDREN"))
             if not ok:
                 bad["d5"].append(desc)
         else:
@@ -557,10 +610,11 @@ def walk_step_rules(chk, p, ps):
     pre = [b for b in ps.preds().get(head, []) if b not in blocks]
     if chk.require(R, "d|preheader", len(pre) == 1, site, "loop preheader not unique"):
         pb = pre[0]
-        init = {l: flow.simplify_term(T.place(l, (), pb, "t")) for l in (lo, hi, s_l, sfx, wl)}
+        init = {l: flow.simplify_term(T.place(l, (), pb, "t")) for l in (lo, hi, walk_l, sfx, wl)}
         i_sfx = start_of(init[sfx])
-        ok = init[lo] == ("const", 0) and cn("NUM_TLD")(init[hi]) and init[s_l] == ("param", 2) and init[wl] == ("const", 0) and _isc(i_sfx, "str::len") and i_sfx[2][0] == ("param", 2)
-        chk.ob(R, "d|initial-state", ok, where(ps, pb), "lo=%s hi=%s s=%s wildcard=%s suffix=%s" % tuple(flow.term_str(init[k])[:40] for k in (lo, hi, s_l, wl, sfx)))
+        whole = init[walk_l] == ("param", 2) if s_l is not None else (_isc(init[walk_l], "str::len") and init[walk_l][2][0] == ("param", 2))
+        ok = init[lo] == ("const", 0) and cn("NUM_TLD")(init[hi]) and whole and init[wl] == ("const", 0) and _isc(i_sfx, "str::len") and i_sfx[2][0] == ("param", 2)
+        chk.ob(R, "d|initial-state", ok, where(ps, pb), "lo=%s hi=%s walked=%s wildcard=%s suffix=%s" % tuple(flow.term_str(init[k])[:40] for k in (lo, hi, walk_l, wl, sfx)))
     # after the loop: suffix == len(domain)  =>  suffix = the start of the last label of the whole domain; nothing else writes it
     from . import intervals
     iv = intervals.Intervals(p, ps)
